@@ -70,6 +70,7 @@ fixed("FX-C05-07", "C05", "9277c67", "float, json.Number, interface{} and Token 
 fixed("FX-C05-08", "C05", "f9dff7d", "Valid(\"6e5535\") was false: Valid decoded numbers into float64 (was KF-C05-12, KF-C18-V12)")
 fixed("FX-C06-08", "C06", "b22aaf9", "json.UnmarshalContext(ctx, data, &v) with v implementing only UnmarshalJSON([]byte) panicked (interface conversion: not decoder.unmarshalerContext), and Unmarshal into a context-only unmarshaler likewise: the buffer decoder asserted the interface matching the entry point (reported by the seeded-change agent for C06, wave 5; C06 now drives the context entry points with plain, context-only and mixed unmarshaler destinations)")
 fixed("FX-C07-07", "C07", "7ff4b49", "{\"1\":\"a\"} into map[*int]string stored the key (*int)(0x1); map[*string]int got a key pointing into the middle of the input copy: compileMapKey ran the pointer's element decoder on the key slot (reported by the seeded-change agent for C07, wave 5; C07 now decodes into maps of every key kind reflect can build and reads/writes through pointer keys)")
+fixed("FX-C05-09", "C05", "a00fc3c", "Valid(\"{null:1}\") was true and Unmarshal({null:1}) into interface{}, map[string]T, map[int]T succeeded: the key decoders accept the literal null (found by the token-level mutants added for seeded change C03e)")
 fixed("FX-C07-06", "C07", "92cf9c1", "newArrayDecoder read 8 bytes from a fresh zero value of the element type: out of bounds for [N]uint8 and other elements smaller than a pointer (-asan: use-after-poison in decoder.newArrayDecoder on the first decode into such an array; found by the thorough tier's asan variant)")
 fixed("FX-C16-02", "C16", "722e84b", "\"16.0\", \"1e2\", \"0.5\" into an integer stored the digit prefix: NewDecoder(\"16.0\").Decode(&uint8) = nil, 16; {\"1.5\":true} into map[int]bool stored key 1; {\"v\":\"1e2\"} with ,string stored 1; Unmarshal reported a syntax error at the leftover (was KF-C16-03 fraction/exponent classes, KF-C09-01, KF-C02-04, KF-C02-04b)")
 fixed("FX-C16-03", "C16", "26b55f9", "Unmarshal(\"-\", &int64) = nil, value 0 (was KF-C16-01)")
@@ -236,9 +237,11 @@ known("KF-C03-03", "C03", W, None, r"malformed-output:(other|empty)", r"feature:
       "other ill-formed json.Number output", "shares lenient scanner")
 known("KF-C03-04", "C03", "enc-reject", None, r"unrepresentable-accepted", r"json\.Number:number:.* @ feature:val:json\.Number",
       'json.Number("x") accepted', "see KF-C03-03", "see KF-C03-03", "see KF-C03-03")
-known("KF-C03-05", "C03", W, None, r"malformed-output:(other|raw-control-char|empty|invalid-utf8)", r"feature:val:(bad-raw|marshaler-output)",
-      'MarshalJSON returning "10." or "a<LF>b" or RawMessage("01") is copied to the output', "internal/encoder/compact.go: lenient validation of marshaler output (KF-C18-01..04)",
-      "other ill-formed marshaler/RawMessage output passed through", "see KF-C18-01")
+PASS_RX = r"(str:raw-ctl|nul-terminates|compact:str-any-escape)"
+known("KF-C03-05", "C03", W, None, r"malformed-output:passthrough", r"relax=" + PASS_RX + r"( \+ relax=" + PASS_RX + r")* @ feature:val:(bad-raw|marshaler-output)",
+      'MarshalJSON returning "a<LF>b" (raw control character) or "\\[" (any byte after a backslash) is copied to the output',
+      "internal/encoder/compact.go compactString: lenient validation of strings in marshaler output (KF-C18-02..04); the number grammar part was repaired in 9277c67",
+      "another ill-formed marshaler/RawMessage output that one of these three string/NUL leniences explains (anything else is reported as relax=unexplained)", "see KF-C18-02")
 known("KF-C03-06", "C03", "enc-reject", None, r"unrepresentable-accepted", r"marshaler-output:nul-terminates @ feature:val:marshaler-output",
       'MarshalJSON returning "1\\x00x" is emitted as 1', "compact.go NUL sentinel", "other NUL-truncated marshaler output", "sentinel design")
 
